@@ -5,6 +5,7 @@ import (
 	"go/token"
 	"go/types"
 	"sort"
+	"strings"
 
 	"golang.org/x/tools/go/ssa"
 )
@@ -541,11 +542,33 @@ func (m *lockModel) computeEntry() {
 		in ssa.Instruction
 	}
 	sites := map[*ssa.Function][]site{}
+	escaped := map[*ssa.Function]bool{}
 	for _, fn := range funcsOfPkg(m.c, sp) {
 		fn := fn
 		allInstrs(fn, func(in ssa.Instruction) {
 			cal := staticCallee(in)
-			if cal == nil || cal.Signature.Recv() == nil || namedOf(cal.Signature.Recv().Type()) != m.H {
+			if cal == nil {
+				// a call through a local method value (verify := h.verifyMessage; ...; verify(m)) is a call site of every
+				// method the value can be; a method value that goes anywhere else may be called from anywhere
+				if call, isCall := in.(*ssa.Call); isCall && !call.Call.IsInvoke() {
+					for _, f := range calleeCandidates(call) {
+						if f.Signature.Recv() != nil && namedOf(f.Signature.Recv().Type()) == m.H {
+							sites[f] = append(sites[f], site{fn, in})
+						}
+					}
+				}
+				if mc, isMC := in.(*ssa.MakeClosure); isMC {
+					if w, _ := mc.Fn.(*ssa.Function); w != nil && strings.HasPrefix(w.Synthetic, "bound method wrapper") {
+						if o, isF := w.Object().(*types.Func); isF {
+							if real := w.Prog.FuncValue(o); real != nil && real.Signature.Recv() != nil && namedOf(real.Signature.Recv().Type()) == m.H && !onlyCalledLocally(mc) {
+								escaped[real] = true
+							}
+						}
+					}
+				}
+				return
+			}
+			if cal.Signature.Recv() == nil || namedOf(cal.Signature.Recv().Type()) != m.H {
 				return
 			}
 			sites[cal] = append(sites[cal], site{fn, in})
@@ -553,7 +576,7 @@ func (m *lockModel) computeEntry() {
 	}
 	cand := map[*ssa.Function]bool{}
 	for _, fn := range m.fns {
-		if fn.Parent() == nil && !fn.Object().Exported() && !m.locks[fn] && len(sites[fn]) > 0 {
+		if fn.Parent() == nil && !fn.Object().Exported() && !m.locks[fn] && len(sites[fn]) > 0 && !escaped[fn] {
 			cand[fn] = true
 		}
 	}
@@ -712,4 +735,36 @@ func (m *lockModel) checkLockset(r *Run, rule1, rule2 string) {
 	for _, im := range implicit {
 		r.Hold(rule2, tn+"|"+c.FuncName(im)+"|implicit-stringer", c.Pos(im.Pos()), im.Name()+" takes the lock: formatting the object under the lock would deadlock (call sites checked)")
 	}
+}
+
+// onlyCalledLocally: the function value is used only (possibly through phis) as the callee of calls in its own function.
+func onlyCalledLocally(v ssa.Value) bool {
+	seen := map[ssa.Value]bool{}
+	var rec func(v ssa.Value) bool
+	rec = func(v ssa.Value) bool {
+		if seen[v] {
+			return true
+		}
+		seen[v] = true
+		if v.Referrers() == nil {
+			return false
+		}
+		for _, ref := range *v.Referrers() {
+			switch x := ref.(type) {
+			case *ssa.Phi:
+				if !rec(x) {
+					return false
+				}
+			case *ssa.Call:
+				if x.Call.Value != v {
+					return false
+				}
+			case *ssa.DebugRef:
+			default:
+				return false
+			}
+		}
+		return true
+	}
+	return rec(v)
 }
